@@ -306,6 +306,9 @@ def run(run):
                     run.bad("C04.F2", "cell-shifted/%s" % name, where(t), "%s adds the fragment to `%s`, not to the iteration's own cell" % (name, expr_str(c)[:80]))
     # cell insert: enumerate indices, casts only
     cf = prog.method("from", r"cell_buffer::CellBuffer$", r"From<.*StringBuffer>")
+    if cf:
+        # a per-row helper the conversion was split into (`insert_row(y, chars)`) is spliced back
+        prog.inline_single_use_helpers(cf, same_file=True, skip=r"::(escape_line|add_css_styles|insert)$")
     if not cf:
         run.missing("C04.F2", "From<StringBuffer> for CellBuffer")
     else:
@@ -331,7 +334,7 @@ def run(run):
                 run.ok("C04.F2", "a cell is inserted at (enumerate index of the character, enumerate index of the row) with that character", where(t))
             else:
                 run.bad("C04.F2", "cell-index", where(t), "the inserted cell/char is `%s` / `%s`: not the plain enumerate indices of the character's column and row" % (expr_str(cell)[:100], expr_str(ch)[:60]))
-            conds = blank_guard_atoms(prog, cf, bid)
+            conds = blank_guard_atoms(prog, cf, bid, ch)
             if sorted(conds) == ["nul", "ws"]:
                 run.ok("C04.F2", "the only conditions on the insert are ch != NUL and !ch.is_whitespace()", where(t))
             else:
